@@ -302,3 +302,24 @@ Definition is_partitioned (cfg : config) (s : state) (n : node) : bool :=
 Inductive dispatch_result := Served | Err502.
 Definition dispatch (cfg : config) (s : state) (n : node) : dispatch_result :=
   if is_partitioned cfg s n then Err502 else Served.
+
+(* PANIC SITE.  The rehash branch of the healthCheck case calls
+   c.gcProxySessions(health.Nodes), which computes (this node + c.nodes) minus
+   health.Nodes and, for every such name, does  n := c.nodes[name]; n.lock.Lock().
+   c.nodes has no entry for this node itself, so when the leader's list does not
+   contain the receiver the run goroutine dies with a nil dereference.  [step]
+   goes on as if the handler had completed; an execution is faithful up to the
+   first event for which this function answers true (after it the node is dead,
+   i.e. takes no more steps). *)
+Definition health_panics (s : state) (idx : nat) : bool :=
+  match nth_error (hnet s) idx with
+  | Some h =>
+    let l := loc s (h_to h) in
+    match electing l with
+    | Some _ => false
+    | None =>
+      negb (h_term h <? term l) && negb (list_eqb (h_sig h) (sig_of (ring_nodes l)))
+      && rehash_skipped l && negb (mem (h_to h) (h_nodes h))
+    end
+  | None => false
+  end.
